@@ -363,6 +363,21 @@ def _kv_replay_shard(bd, wd, args, timeout=3000):
     return p.returncode, p.stdout or ""
 
 
+def padded(lines, every=3, pad=12):
+    """Every `every`-th behaviour is replayed with padded serialization buffers: `pad` writes to two
+    columns outside the model in front of every buffered operation, so that buffers hold dozens of
+    interleaved operations while the model's operations (several per key in one buffer) keep their
+    order - which the store must keep too."""
+    out = []
+    for i, l in enumerate(lines):
+        if i % every == 1:
+            c = json.loads(l)
+            c["pad"] = pad
+            l = json.dumps(c) + "\n"
+        out.append(l)
+    return out
+
+
 def run_replays(bd, wd, tmp, plan, seed, verdict, status, stats, threads=8, shard=400):
     """All behaviours, in shards of `shard` behaviours per kv_replay process
     (families are matched to the behaviour's domain sizes by the harness).
@@ -373,6 +388,8 @@ def run_replays(bd, wd, tmp, plan, seed, verdict, status, stats, threads=8, shar
     for name, cases_path, pc in plan:
         per_case = max(per_case, pc)
         lines += [l for l in open(cases_path) if l.strip()]
+    lines = padded(lines)
+    stats["behaviours_with_padded_buffers"] = stats.get("behaviours_with_padded_buffers", 0) + sum(1 for l in lines if '"pad"' in l)
     for n, i in enumerate(range(0, len(lines), shard)):
         cases = os.path.join(wd, f"cases_shard{n}.ndjson")
         with open(cases, "w") as f:
@@ -398,7 +415,8 @@ def run_ft_replays(bd, wd, tmp, cases_path, per_case, seed, verdict, status, sta
     """The first-touch behaviours on every backend, in `procs` single-threaded
     kv_replay processes over disjoint slices (RocksDB opens do not scale over
     the threads of one process: the address-space lock is the bottleneck)."""
-    lines = [l for l in open(cases_path) if l.strip()]
+    lines = padded([l for l in open(cases_path) if l.strip()])
+    stats["behaviours_with_padded_buffers"] = stats.get("behaviours_with_padded_buffers", 0) + sum(1 for l in lines if '"pad"' in l)
     jobs = []
     for n in range(procs):
         part = lines[n::procs]
